@@ -416,6 +416,9 @@ def run(prop, tier=None, replay=None):
         sig.update(signature(prop, c, r, clause))
         srcs = "\n".join("--- %s (%s)\n%s" % (j["name"], r["jobs"][j["name"]]["o"], j["src"]) for j in c["jobs"][:3])
         chk.violation(sig, "%s: %s; edits %s\n%s" % (prop, clause, c["ed"], srcs[:900]), {"beh": c["beh"], "clause": clause})
+    if prop in ("C11", "C13", "C14") and not replay:
+        protocol_traces(chk, prop, cases)
+        chk.phase("protocol")
     if prop == "C08":
         nvalid = sum(1 for c in cases if c["meta"]["valid"])
         chk.cov["edits_leaving_a_valid_program_skipped"] = nvalid
@@ -428,3 +431,58 @@ def run(prop, tier=None, replay=None):
     chk.assumptions = ["the expected leaves / line numbers / validity of an edited stream are computed by TLC from Perturb.tla and Nest.tla",
                        "texts of comments, directives and garbage come from mbt/perturb.py"]
     return chk.finish()
+
+
+# ------------------------------------------------------------------ protocol traces of the same parses
+def _record(case):
+    import os, shutil, tempfile
+    from .. import probe
+    out = []
+    for tid, src, kw, files in case["items"]:
+        tmp = None
+        try:
+            rkw = dict(kw)
+            if files is not None:
+                tmp = tempfile.mkdtemp(prefix="ptr", dir=os.path.join(common.WORK, "tmp"))
+                for fn, txt in files.items():
+                    with open(os.path.join(tmp, fn), "w") as f:
+                        f.write(txt)
+                rkw["include_dirs"] = [tmp]
+            out.append(probe.record(tid, src, "f2008", **rkw)[0])
+        finally:
+            if tmp:
+                shutil.rmtree(tmp, ignore_errors=True)
+    return out
+
+
+def protocol_traces(chk, prop, cases):
+    """The parses of a sample of the cases are recorded at the protocol level (reader items, BlockBase activations,
+    scopes) and validated against TraceParseProto.tla: FinishOk states that every item the reader delivered is a leaf
+    of the tree exactly once and in order (conservation of statements, comments, directives, include lines)."""
+    from .. import proto
+    n = 250 if chk.tier == "quick" else 4000
+    step = max(1, len(cases) // n)
+    items = []
+    srcs = {}
+    for c in cases[::step]:
+        J = {j["name"]: j for j in c["jobs"]}
+        if prop == "C13":
+            j = J["str"]
+            files = dict(j["files"]["d1"])
+            it = (len(items) + 1, j["src"], {"ignore_comments": True}, files)
+        else:
+            j = J["keep"]
+            it = (len(items) + 1, j["src"], {"ignore_comments": False, "process_directives": bool(len(items) % 2)}, None)
+        srcs[it[0]] = j["src"]
+        items.append(it)
+    chunks = [items[i::common.NCPU] for i in range(common.NCPU)]
+    out = pmap(_record, [{"id": i, "items": ch} for i, ch in enumerate(chunks) if ch], chunksize=1, timeout=900)
+    traces = [t for o in out if isinstance(o, list) for t in o]
+    rej = proto.validate(chk, traces)
+    for tid, clause in rej:
+        if clause in proto.PROPERTY_CLAUSES:
+            chk.violation({"clause": "protocol-" + clause}, "%s: protocol trace rejected by TraceParseProto.tla (%s):\n%s" % (prop, clause, srcs.get(tid, "")[:600]),
+                          {"src": srcs.get(tid), "clause": clause})
+        else:
+            chk.note("mechanism-deviation %s in protocol trace %d" % (clause, tid))
+    chk.count(len(traces))
